@@ -156,6 +156,27 @@ def collect_impls(syn):
     return out
 
 
+def mir_shape(crate, body):
+    """the TypeScript shapes a name()/inline() body can produce, as format-string-like literals (`{}` for a spliced-in
+    value): the literal text it appends in control-flow order, split where the function chooses between alternatives
+    (a call into another impl's name()/inline() ends one alternative)"""
+    ib = crate.inlined(body)
+    ems = M.text_emissions(ib)
+    if not ems:
+        return []
+    txt = ""
+    for _, t in ems:
+        if t.startswith("<join:"):
+            continue
+        txt += t
+    txt = re.sub(M.ARG + "+", M.ARG, txt)
+    lit = txt.replace("{", "{{").replace("}", "}}").replace(M.ARG, "{}")
+    out = [lit]
+    # a repetition `[` x, x, .. `]` assembled with join: one element stands for the list
+    out.append(re.sub(r"(\{\}(, )?)+", "{}", lit))
+    return out
+
+
 def class_table_rule(syn, crate, prop, rule="C12.R1"):
     r = Result(rule, "representation class of every built-in `impl TS` (primitive table rows, wrappers, shadows, tuples, hand-written containers) equals the class serde's data model assigns to that Rust type; name() and inline() use the same shape; arrays repeat exactly 0..N")
     with open(os.path.join(VERIF, "reference/serde_classes.json")) as fh:
@@ -171,6 +192,30 @@ def class_table_rule(syn, crate, prop, rule="C12.R1"):
     by_ty = {}
     for o in impls[1:]:
         by_ty[o["ty"]] = o
+    for o in impls[1:]:
+        if o["how"] == "impl_tuples!" and not o.get("class"):
+            tb = [b for b in crate.bodies if b.raw.get("impl_trait") == "TS" and b.raw.get("assoc_name") == "name" and re.match(r"^<\(T\d+,", b.path)]
+            shapes = {sh for b in tb for sh in mir_shape(crate, b)}
+            if tb and all(any(lit_class(sh) == "tuple" for sh in mir_shape(crate, b)) for b in tb):
+                o["class"] = "tuple"
+    # hand-written impls whose name() is not a single format!/literal in place (the shape is assembled by a helper, by
+    # push_str, by join): read the shape off the text name() appends, helpers spliced in
+    for o in impls[1:]:
+        if o["how"] != "impl" or o.get("class") or o.get("delegate"):
+            continue
+        for meth in ("name", "inline"):
+            bodies = [b for b in crate.bodies if b.raw.get("impl_trait") == "TS" and b.raw.get("assoc_name") == meth
+                      and (b.raw.get("impl_span") or {}).get("line") == o["line"] and str((b.raw.get("impl_span") or {}).get("file", "")).endswith(o["file"].split("/")[-1])]
+            if len(bodies) != 1:
+                continue
+            shape = mir_shape(crate, bodies[0])
+            o.setdefault("mir_shapes", {})[meth] = shape
+            if meth == "name" and shape:
+                for sh in shape:
+                    o["class"] = o.get("class") or lit_class(sh)
+        ms = o.get("mir_shapes") or {}
+        if o.get("class") and ms.get("name") and ms.get("inline"):
+            o["name_literals"], o["inline_literals"] = sorted(set(ms["name"])), sorted(set(ms["inline"]))
 
     def resolve(o, depth=0):
         if o.get("class"):
@@ -214,7 +259,7 @@ def class_table_rule(syn, crate, prop, rule="C12.R1"):
                 r.fail(prop, "tuple-arity %s" % o.get("arity"), "tuple impls cover arity %s, expected 1..=10" % o.get("arity"), o["file"], o["line"])
     # arrays: Range {0, N} and ARRAY_TUPLE_LIMIT switch (MIR)
     for meth in ("name", "inline"):
-        b = crate.body("<[T; N] as TS>::%s" % meth)
+        b = crate.ibody("<[T; N] as TS>::%s" % meth)
         if b is None:
             r.fail(prop, "anchor-missing <[T; N] as TS>::%s" % meth, "array impl not found")
             continue
@@ -225,10 +270,15 @@ def class_table_rule(syn, crate, prop, rule="C12.R1"):
                     ops = st["rv"]["ops"]
                     c0 = M.op_const(ops[0]) or {}
                     c1 = M.op_const(ops[1]) or {}
-                    if c0.get("int") == 0 and ("N" in (c1.get("dbg") or "")):
+                    if c1 == {} and op_local(ops[1]) is not None:
+                        cs = [o for o in origins(b, op_local(ops[1]))]
+                        if cs and all(o["kind"] == "const" for o in cs):
+                            c1 = cs[0]["c"] or {}
+                    if c0.get("int") == 0 and ("N" in (c1.get("dbg") or "") or "N" == str(c1.get("param", ""))):
                         rng = True
-        limit = any(st["k"] == "assign" and st["rv"]["k"] == "binop" and st["rv"]["op"] == "Gt" for blk in range(b.n) for st in b.stmts(blk))
-        deleg = any(fn_matches(t, r"TS::%s$" % meth) and (t["fn"].get("args") or [""])[0].startswith("std::vec::Vec<") for _, t in b.calls())
+        limit = any(st["k"] == "assign" and st["rv"]["k"] == "binop" and st["rv"]["op"] in ("Gt", "Ge", "Lt", "Le") for blk in range(b.n) for st in b.stmts(blk))
+        deleg = any(fn_matches(t, r"TS::%s$" % meth) and (t["fn"].get("args") or [""])[0].startswith("std::vec::Vec<") for _, t in b.calls()) or \
+            any(kind == "fn" and isinstance(v, dict) and v.get("path", "").endswith("TS::%s" % meth) and (v.get("args") or [""])[0].startswith("std::vec::Vec<") for kind, v in crate.address_taken(b))
         r.inst(impl="[T; N]", method=meth, repeats_0_to_N=rng, limit_switch=limit, long_arrays_delegate_to_vec=deleg)
         if not rng:
             r.fail(prop, "array-repetition [T; N]::%s" % meth, "the tuple form of [T; N] is not produced by iterating exactly 0..N (a zero-length or off-by-one array would get the wrong arity)", b.file(), b.line())
@@ -271,16 +321,22 @@ def visit_agreement_rule(crate, prop, rule="C12.R2"):
             b = fns.get(fn)
             if b is None:
                 return None
+            b = crate.inlined(b)
             for _, t in b.calls():
                 f = t.get("fn") or {}
                 if f.get("trait") == "TS" and f["path"].split("::")[-1] in methods:
                     out |= _params_in((f.get("args") or [""])[0], params)
+            # `helper(T::name)`: the method handed over as a function value is called by the helper
+            for kind, v in crate.address_taken(b):
+                if kind == "fn" and isinstance(v, dict) and v.get("trait") == "TS" and v.get("path", "").split("::")[-1] in methods:
+                    out |= _params_in((v.get("args") or [""])[0], params)
             return out
 
         def visited(fn):
             b = fns.get(fn)
             if b is None:
                 return None, None
+            b = crate.inlined(b)
             vis, gen = set(), set()
             for _, t in b.calls():
                 f = t.get("fn") or {}
@@ -409,7 +465,7 @@ def totality_rule(crate, prop, rule="C12.R3"):
     return r
 
 
-def map_key_rule(syn, prop, rule="C12.R4"):
+def map_key_rule(syn, prop, rule="C12.R4", crate=None):
     """TypeScript admits only string | number | symbol (and literal unions of those) after `key in`; serde_json writes every
     map key as a string and accepts integers of every width and bool as key types."""
     r = Result(rule, "the key slot of the map template (`{ [key in K]?: V }`) is never filled with a type that TypeScript rejects there: of the TypeScript names the primitive table assigns to types that serde_json accepts as map keys, `bigint` and `boolean` are not keyable")
@@ -448,6 +504,29 @@ def map_key_rule(syn, prop, rule="C12.R4"):
                 txt = S.squash(" ".join(t for t in S.flat(e["tokens"][1:]) if isinstance(t, str)))
                 raw = re.match(r"^,?<Kas(crate|\$crate)::TS>::(name|inline)\(\)", txt) is not None
                 sites.append((fn, e, raw))
+    if not sites and crate is not None:
+        # the template is assembled elsewhere (a helper, push_str): read it off the MIR of name()/inline(), helpers spliced in.
+        # The key slot is "raw" when the value of <K as TS>::name()/inline() reaches the text untouched.
+        PLUMBING = r"fmt::rt::Argument|String::push_str$|Deref::deref$|::as_str$|::as_ref$|Borrow::borrow$|fmt::format$|ToString::to_string$|Clone::clone$|fmt::Arguments"
+        for b in crate.bodies:
+            if b.raw.get("impl_trait") != "TS" or b.raw.get("assoc_name") not in ("name", "inline") or not (b.raw.get("impl_self") or "").startswith("std::collections::HashMap<"):
+                continue
+            ib = crate.inlined(b)
+            txt = "".join(t for _, t in M.text_emissions(ib))
+            if "[key in " not in txt:
+                continue
+            raw = False
+            for blk, t in ib.calls():
+                f = t.get("fn") or {}
+                if f.get("trait") == "TS" and f.get("path", "").split("::")[-1] in ("name", "inline") and (f.get("args") or [""])[0] == "K":
+                    cons = [u for u in M._consumers(ib, t["dst"]["l"]) if not u.get("inlined")]
+                    if all(fn_matches(u, PLUMBING) for u in cons):
+                        raw = True
+            fnrec = {"file": (b.span.get("file") or "").split("/repo/")[-1], "qual": b.path}
+            for f2 in syn.fns:
+                if f2["file"].endswith("ts-rs/src/lib.rs") and f2["line"] == b.line():
+                    fnrec = f2
+            sites.append((fnrec, {"line": b.line()}, raw))
     r.inst(primitive_table_entries=len(table), key_types_with_unkeyable_name=["%s => %s" % x for x in unkeyable], map_templates=len(sites))
     if not sites:
         r.fail(prop, "anchor-missing map template", "no `[key in {}]` template found in impl TS for HashMap")
